@@ -263,7 +263,7 @@ impl Property for C01 {
     fn fixed_cases(&self, tier: Tier) -> Vec<Case> {
         let mut v = Vec::new();
         let sizes: &[u64] = match tier {
-            Tier::Quick => &[300_000, 1 << 20],
+            Tier::Quick => &[300_000, 1 << 20, 20 << 20],
             Tier::Thorough => &[1 << 20, 4 << 20, 16 << 20, 64 << 20, 33 << 20],
         };
         for (i, &t) in sizes.iter().enumerate() {
